@@ -79,6 +79,8 @@ impl DateTime {
         let duration = SystemTime::now()
             .duration_since(UNIX_EPOCH)
             .expect("Time went backwards");
+        #[cfg(feature = "verif-hooks")]
+        let duration = crate::verif_hooks::pinned_now().unwrap_or(duration);
 
         let days = duration.as_secs() / SECS_PER_DAY_U64 + DAYS_TO_1970;
         let nanoseconds =
